@@ -154,6 +154,23 @@ def run(v, O):
     out.append(('second parse: mpi.nodes', O.eq(d2['mpi.nodes'], v.k2)))
     return out
 '''
+BASE2_SRC = '''
+def run(v, O):
+    # a base environment that holds custom units but no nodes, and an entirely empty one
+    out = []
+    for label, text in (('units only', '$unit len = {x3} cm'), ('empty', '')):
+        base = dip_parse(subst(O, v, text))
+        units_before = sorted(base.units.units.keys())
+        env2 = dip_parse(subst(O, v, 'a float = {x1} m\\ngrp\\n  w int = {k1}\\n$unit tim = {x2} s') + (subst(O, v, '\\nb float = {x2} [len]') if label == 'units only' else ''), base)
+        d2 = env2.data(Format.TUPLE)
+        out.append((f'{label}: base environment gained no parameters', O.same(list(base.data(Format.TUPLE).keys()), [])))
+        out.append((f'{label}: base environment units unchanged', O.same(sorted(base.units.units.keys()), units_before)))
+        out.append((f'{label}: second parse has its nodes', O.same(sorted(d2.keys()), sorted(['a', 'grp.w'] + (['b'] if label == 'units only' else [])))))
+        out.append((f'{label}: a', O.eq(d2['a'][0], v.x1)))
+        if label == 'units only':
+            out.append((f'{label}: custom unit of the base usable', O.eq(d2['b'][0], v.x2)))
+    return out
+'''
 SLICES = [('string slice', 'person str = "Will Smith"\nsurname str = {?person}[5:]', 'surname', 'Smith'), ('string slice front', 'p str = "Will Smith"\ns str = {?p}[:4]', 's', 'Will'),
           ('single array element', 'sizes float[3] = [34,23.34,1e34] cm\nmy float = {?sizes}[1]', 'my', 23.34), ('array range', 'a int[4] = [1,2,3,4]\nb int[2] = {?a}[1:3]', 'b', [2, 3]),
           ('matrix column', 'm float[2,2] = [[34,23.34],[1,1e34]] cm\nc float[2] = {?m}[:,1]', 'c', [23.34, 1e34]), ('matrix row', 'm int[2,2] = [[1,2],[3,4]]\nr int[2] = {?m}[1,:]', 'r', [3, 4]),
@@ -228,6 +245,7 @@ def scenarios(tier, seed):
         S.append(Scenario(f'import/{j}', IMP_SRC, inp, consts={'text': text, 'expect': expect, 'paths': paths}, preamble=PRE, what=label, samples=2))
     S.append(Scenario('bad-requests', BAD_SRC, {}, consts={'bad': BAD, 'empty': EMPTY_IMPORTS}, preamble=PRE, what='requests selecting no node or several', samples=1))
     S.append(Scenario('remote', REMOTE_SRC, inp, consts={}, preamble=PRE, what='second file through $source', samples=1))
+    S.append(Scenario('base-env-without-nodes', BASE2_SRC, {'x1': 'real', 'x2': 'real', 'x3': 'real', 'k1': 'int'}, ['v.x3 > 0', 'v.x2 > 0'], consts={}, preamble=PRE, what='parse on top of a base environment that has no nodes', samples=2))
     S.append(Scenario('base-env', BASE_SRC, inp, ['v.x3 > 0', 'v.x2 > 0'], consts={}, preamble=PRE, what='parse on top of a base environment', samples=2))
     S.append(Scenario('slices', SLICE_SRC, {}, consts={'cases': SLICES}, preamble=PRE, what='sliced injections (concrete)', samples=1))
     S.append(Scenario('canary/stale', INJ_SRC, inp, consts={'text': 'a float = {x1} m\na = {x2} m\nb float = {?a}', 'expect': [('b', 'v.x1', 'm')]}, preamble=PRE, canary=True))
